@@ -140,6 +140,11 @@ class ADIWorld(World):
             if not is_arr(arr):
                 raise AnalysisBroken("adi model: xt::view of %r" % (arr,))
             return ndsym.view(arr, [V(i) for i in range(1, len(args))])
+        if bn in ("xt::row", "xt::col") and len(args) == 2:
+            arr = V(0)
+            if is_arr(arr) and len(arr.shape) == 2:
+                return ndsym.view(arr, [V(1), "all"] if bn == "xt::row" else ["all", V(1)])
+            return NOT_HANDLED
         if bn == "xt::transpose":
             arr = V(0)
             perm = list(V(1)) if len(args) > 1 else None
@@ -275,14 +280,34 @@ def reference_step(e, fr, fc, nr, nc, dt):
     return nxt
 
 
+_SETTERS = {}      # "scalar" / "array" -> set_k_coef overload of the unit under analysis
+
+
 def make_this(nr, nc, fr, fc, k_scalar=None, k_array=None):
-    return Obj(ADI, {"m_grid": Sym("grid", "g"), "m_nrows": nr, "m_ncols": nc,
+    this = Obj(ADI, {"m_grid": Sym("grid", "g"), "m_nrows": nr, "m_ncols": nc,
                      "m_erosion": NDArr((nr, nc), None, "m_erosion"),
                      "m_k_coef_is_scalar": k_array is None, "m_k_coef_scalar": k_scalar,
                      "m_k_coef_array": k_array if k_array is not None else NDArr((0,), None, "m_k_coef_array"),
-                     "m_factors_row": fr, "m_factors_col": fc,
+                     "m_factors_row": NDArr((0,), None, "m_factors_row"),
+                     "m_factors_col": NDArr((0,), None, "m_factors_col"),
                      "m_vec": NDArr((0,), None, "m_vec"), "m_lower": NDArr((0,), None, "m_lower"),
                      "m_diag": NDArr((0,), None, "m_diag"), "m_upper": NDArr((0,), None, "m_upper")})
+    # however the object records which kind of diffusivity it holds (a flag, an enumeration, ...),
+    # that state is established by the library's own setter
+    st = _SETTERS.get("scalar" if k_array is None else "array")
+    if st is not None and (k_array is not None or k_scalar is not None):
+        it = Interp(ADIWorld([Dual.sym("dy", 1.5), Dual.sym("dx", 2.0)], [nr, nc]))
+        try:
+            it.call_fn(st, this, [k_array.copy() if k_array is not None else k_scalar] + [None] * (len(st.params) - 1))
+        except (ThrowEx, UninitUse, ShapeMismatch, AnalysisBroken) as ex:
+            import os
+            if os.environ.get("FSVERIF_TRACE"):
+                print("make_this: setter failed:", ex)
+        if k_array is not None and k_scalar is not None:
+            this.fields["m_k_coef_scalar"] = k_scalar
+    this.fields["m_factors_row"] = fr
+    this.fields["m_factors_col"] = fc
+    return this
 
 
 def fresh(prefix, shape, rep0=0.7):
@@ -335,6 +360,10 @@ def run(db, chk):
         dy, dx = Dual.sym("dy", 1.5), Dual.sym("dx", 2.0)
         dt = Dual.sym("dt", 1.25)
 
+        _SETTERS.clear()
+        for f in fns.get("set_k_coef", []):
+            t0 = f.type(f.params[0]["t"]) if f.params else ""
+            _SETTERS["array" if "xt::" in t0 else "scalar"] = f
         # ------------------------------------------------------------------ D1
         for mode in ("scalar", "array", "uniform array"):
             nr, nc = (4, 4) if chk.tier == "thorough" else (3, 4)
@@ -465,7 +494,15 @@ def run(db, chk):
             it = Interp(ADIWorld([dy, dx], [3, 3]), max_steps=2000000)
             bad = []
             try:
-                x = it.rv(it.call_fn(st, this, []))
+                if st.params:
+                    # the solution is handed back through an output parameter
+                    from ..interp import Cell
+                    outs = [Cell(NDArr((0,), None, "result"), "result") for _ in st.params]
+                    r_ = it.rv(it.call_fn(st, this, outs))
+                    cand = [it.rv(c) for c in outs if is_arr(it.rv(c)) and tuple(it.rv(c).shape) == (n,)]
+                    x = r_ if is_arr(r_) else (cand[0] if cand else it.rv(outs[0]))
+                else:
+                    x = it.rv(it.call_fn(st, this, []))
             except (ThrowEx, UninitUse, ShapeMismatch) as ex:
                 bad.append("solve_tridiagonal: %s" % ex)
                 x = None
@@ -591,7 +628,8 @@ def run(db, chk):
                             x = fresh("x%d" % k, (nc,), 0.9 + 0.1 * k)
                             systems[k] = {n: this.fields[n].copy() for n in ("m_lower", "m_diag", "m_upper", "m_vec")}
                             systems[k]["x"] = x
-                            return x
+                            from ..interp import out_param
+                            return out_param(it, frame, call.get("a", []), 0, x)
                         return ADIWorld.before_call(self, it, fn, call, callee, frame)
                 this = make_this(nr, nc, FRa, FCa, k_scalar=Dual.sym("K", 0.3))
                 for nme in ("m_vec", "m_lower", "m_diag", "m_upper"):
